@@ -1,5 +1,6 @@
 #!/bin/sh
 # run every stored seeded change against the check of its own property (and extra ones given)
+# PATTERN='*-m[34]' restricts the set
 cd /verif
-for d in seeded/*/; do n=$(basename $d); pid=${n%%-*}; [ -f checks/$(echo $pid | tr A-Z a-z).py ] || continue
+for d in seeded/${PATTERN:-*}/; do n=$(basename $d); pid=${n%%-*}; [ -f checks/$(echo $pid | tr A-Z a-z).py ] || continue
   tools/seedtest.sh $d $pid "$@" 2>&1 | grep -v "^$"; done
